@@ -139,10 +139,11 @@ func mustFollow(from ssa.Instruction, ev func(ssa.Instruction) bool) bool {
 }
 
 func runC17(c *core.Ctx) {
-	c.Explanation = "Structural necessary conditions of the header store laws, decided on SSA: (hdr.canon) the assigned-key set (headerKeyStore) is indexed, in IsAssigned, Assign and Unassign alike, only with the result of one canonicaliser applied to the name (net/http canonicalises header names, so set/unset under different spellings must hit the same bookkeeping key), and the set is touched nowhere else; (hdr.pair) on the VCL-visible write paths of interpreter/variable every Header.Del(k) is followed on all paths to the exit by Unassign(k) (or a Set/Add of the same k), and every Header.Set/Add(k, v) by Assign(k) — otherwise a header reads as set after unset, or as not set after `set … = \"\"`; (hdr.wild) a loop over the canonical keys of Header that compares a key with a name taken from VCL does so case-insensitively / after canonicalising the name; (hdr.namecase) the header helpers of interpreter/variable never compare the name (as the program spelled it) with a constant case-sensitively; (hdr.sep) getters and setters of one object use the same sub-field separator constant. Decides the pairing/keying shape for all operation sequences; not the regular-expression sub-field algebra."
+	c.Explanation = "Structural necessary conditions of the header store laws, decided on SSA: (hdr.canon) the assigned-key set (headerKeyStore) is indexed, in IsAssigned, Assign and Unassign alike, only with the result of one canonicaliser applied to the name (net/http canonicalises header names, so set/unset under different spellings must hit the same bookkeeping key), and the set is touched nowhere else; (hdr.pair) on the VCL-visible write paths of interpreter/variable every Header.Del(k) is followed on all paths to the exit by Unassign(k) (or a Set/Add of the same k), and every Header.Set/Add(k, v) by Assign(k) — otherwise a header reads as set after unset, or as not set after `set … = \"\"`; (hdr.wild) a loop over the canonical keys of Header that compares a key with a name taken from VCL does so case-insensitively / after canonicalising the name; (hdr.namecase) the header helpers of interpreter/variable never compare the name (as the program spelled it) with a constant case-sensitively; (hdr.cookiereplace) every AddCookie in the header helpers is dominated by the removal of the cookie of the same name; (hdr.sep) getters and setters of one object use the same sub-field separator constant. Decides the pairing/keying shape for all operation sequences; not the regular-expression sub-field algebra."
 	c.NotCovered = []string{"the regular-expression sub-field algebra of GetField/setField/unsetField", "value truncation at newline beyond the flow of strings.Cut into Header.Set", "cookie sub-fields (request Cookie header is rewritten by its own helpers)"}
 	prog := c.Prog
 	checkHeaderNameCase(c)
+	checkCookieReplace(c)
 
 	// ---- hdr.canon
 	used := map[string]string{}
@@ -665,4 +666,69 @@ func checkHeaderNameCase(c *core.Ctx) {
 		}
 	}
 	c.Floor("hdr.namecase", 8)
+}
+
+// checkCookieReplace (hdr.cookiereplace): "replacing one name:key sub-field makes exactly that sub-field read back
+// accordingly" - the request Cookie header is written through net/http's AddCookie, which only appends. Every AddCookie
+// in the header helpers is dominated by a call that removes the cookie of the same name (a function of the package that
+// rewrites or deletes the Cookie header, handed the same key as the cookie that is created).
+func checkCookieReplace(c *core.Ctx) {
+	prog := c.Prog
+	n := 0
+	rewritesCookie := func(fn *ssa.Function) bool {
+		if fn == nil || fn.Blocks == nil {
+			return false
+		}
+		for _, b := range fn.Blocks {
+			for _, in := range b.Instrs {
+				var key ssa.Value
+				switch t := in.(type) {
+				case *ssa.MapUpdate:
+					key = t.Key
+				case *ssa.Call:
+					if cal := t.Common().StaticCallee(); cal != nil && cal.Name() == "Del" && len(t.Common().Args) == 2 {
+						key = t.Common().Args[1]
+					}
+				}
+				if k, ok := key.(*ssa.Const); ok && k.Value != nil && k.Value.Kind() == constant.String && strings.EqualFold(constant.StringVal(k.Value), "cookie") {
+					return true
+				}
+			}
+		}
+		return false
+	}
+	for _, fn := range prog.ModuleFuncs("interpreter/variable") {
+		for _, b := range fn.Blocks {
+			for _, in := range b.Instrs {
+				call, ok := in.(*ssa.Call)
+				if !ok {
+					continue
+				}
+				cal := call.Common().StaticCallee()
+				if cal == nil || cal.Name() != "AddCookie" {
+					continue
+				}
+				n++
+				key := core.FnName(fn) + "|AddCookie"
+				removed := false
+				for _, b2 := range fn.Blocks {
+					for _, in2 := range b2.Instrs {
+						c2, ok := in2.(*ssa.Call)
+						if !ok || !rewritesCookie(c2.Common().StaticCallee()) {
+							continue
+						}
+						if core.InstrDominates(c2, call) {
+							removed = true
+						}
+					}
+				}
+				if removed {
+					c.Discharge("hdr.cookiereplace", key, in.Pos(), "the cookie of that name is removed before the new one is appended")
+				} else {
+					c.Report("hdr.cookiereplace", key, in.Pos(), fmt.Sprintf("%s appends a cookie (AddCookie) without removing the cookie of the same name first: `set req.http.Cookie:a = \"2\"` after `= \"1\"` leaves both in the header and the first one is read back", core.FnName(fn)))
+				}
+			}
+		}
+	}
+	c.Floor("hdr.cookiereplace", 1)
 }
